@@ -44,6 +44,33 @@ expressions
   * pure functions, strings (`str` = `List Char`): `s[i]` for a provably non-negative `i` (→ `Py.getItem`, a one-character string,
     usable only through methods the spec declares for it, e.g. `isdigit`), `len(s)`, `==`, f-strings whose interpolated values are
     all `str` without conversion / format spec (→ `++`; literal parts printable ASCII)
+  * pure functions, control (W20): `continue`; `for v in reversed(xs)` (→ `xs.reverse`; the subset has no list mutation);
+    an assignment expression ONLY as `if (x := e) <cmp> …:` (→ `x = e` followed by `if x <cmp> …`; in an `elif` the chain is rendered
+    as a nested `else` block); `odxassert(cond[, msg])` (STRICT MODE: → `if ¬ cond then throw Py.Err.odxError`);
+    `odxraise(msg, KeyError)` (→ `Py.Err.keyError`); `warnings.warn(msg[, Category][, stacklevel=k])` (no effect on the values:
+    rendered as `pure ()`, the assumption "warnings are not turned into exceptions" is listed in the header);
+    `and`/`or` whose LATER operands can raise (→ `(← if a then (do pure b) else pure false)`: the operand is only run when
+    Python evaluates it); `not xs` for a list (→ `xs.isEmpty`)
+  * pure functions, lists of records (W20): `[x for x in xs if c(x)]` (the element is the loop variable, one condition: →
+    `xs.filter`, or `(← Py.filterM …)` when the condition can raise: conditions in order, the first exception propagates);
+    `xs[i]` for a provably non-negative `i` (→ `Py.getItem`, IndexError)
+  * pure functions, records (W20): `x.attr` / `x.m(…)` for an `Optional` record `x` (→ `Py.unwrapAttr`, AttributeError on None);
+    the builtin `isinstance(a, b)` as a spec'd call (`calls[(None, "isinstance")]`: the spec names what class membership means
+    for its abstract records); a Python `str` the model keeps as a Lean `String` (type `PYSTR`: opaque, only `==`/`!=` and
+    spec'd calls); messages of `odxraise` may contain `type(e).__name__` and subscripts — a subscript in a message IS evaluated
+    (`let _ := (← Py.getItem …)` before the `throw`: it can raise first)
+  * pure functions, dict-like records and local lists (W20): `k in x` / `x[k]` on a record for which the spec declares what the key
+    means (`PureSpec.keyed`: per distinguished int literal, e.g. `-1`, and for provably non-negative int keys; `x[k]` → `Py.unwrapKey`,
+    KeyError); `for b in data` over `bytes` (ints); the empty list display `[]` (element type from the joins), `xs + ys`, and
+    `xs += ys` on a LOCAL that is only ever bound to fresh lists (display / comprehension / concatenation — otherwise the in-place
+    extension could be visible through another name: `Unsupported`); `odxassert(isinstance(e, T))` without a spec'd `isinstance`
+    is a typing assertion: dropped and listed, but `e` is still evaluated (`let _ := …`)
+  * pure functions, Python protocols named by the spec (W20): `==` / `!=` on a record type for which the spec gives `__eq__`
+    (`PureSpec.eq`; Optional operands → `Py.optEq`: `None == None`, a value never equals None); `isinstance(e, T)` /
+    `issubclass(e, T)` with `T` a builtin type name or a tuple of such names (tuple = any of them) through the tables
+    `PureSpec.isinstance` / `.issubclass` (a type the table does not list: `Unsupported`); attribute chains through Optional
+    records (`a.b.c` with `a.b` Optional → `Py.unwrapAttr`); templates of the spec may call other GENERATED functions
+  * several `def`s of one name in a class / module (typing.overload stubs): the LAST one is translated (Python's binding)
   * function headers: decorators `property`, `override`, `staticmethod` only; parameter defaults must be constants (they concern the
     callers; the rendering takes every parameter explicitly); annotations are never consulted
 typing (static, flow-insensitive per variable; the translator infers it)
@@ -73,6 +100,7 @@ from pathlib import Path
 
 NAT, INT, BOOL, BYTES = "Nat", "Int", "Bool", "Bytes"
 STR = "List Char"                     # a Python `str` (sequence of code points)
+PYSTR = ("Rec", "String")            # a Python `str` that the model keeps as a Lean `String` (opaque: only `==` / `!=` and spec'd calls)
 CHAR1 = ("Rec", "Char")               # a one-character `str` obtained by indexing a `str` (Python has no character type)
 LEAN_KEYWORDS = {"from", "at", "end", "open", "fun", "do", "then", "have", "show", "let", "in", "if", "else", "match", "with",
                  "by", "where", "def", "theorem", "structure", "class", "instance", "return", "for", "mut", "type", "Type",
@@ -130,6 +158,8 @@ def join(a, b, node=None):
         return INT
     if is_opt(a) or is_opt(b):
         return opt(join(strip_opt(a), strip_opt(b), node))
+    if is_list(a) and is_list(b):                                      # `[]` is a list of a not yet known element type
+        return ("List", join(a[1], b[1], node))
     raise Unsupported(node, f"incompatible types {lean_ty(a)} / {lean_ty(b)}")
 
 
@@ -245,6 +275,8 @@ class Translator:
             return e.code
         if e.ty == NAT and to == INT:
             return f"Int.ofNat ({e.code})"
+        if is_list(e.ty) and e.ty[1] is None and is_list(to):
+            return e.code                                                  # `[]`
         if is_opt(to) and not is_opt(e.ty):
             return f"some ({self.coerce(e, to[1], node)})"
         if is_opt(to) and is_opt(e.ty):
@@ -338,6 +370,12 @@ class Translator:
                 if self.emitting and not self.declared(v.id):
                     raise Unsupported(v, f"local `{v.id}` is possibly unbound here")
                 return t[1], mangle(v.id)
+            if is_opt(t) and isinstance(t[1], tuple) and t[1][0] == "Rec":
+                # `x.attr` / `x.method(…)` for an Optional record: `None.attr` raises AttributeError
+                if self.emitting and not self.declared(v.id):
+                    raise Unsupported(v, f"local `{v.id}` is possibly unbound here")
+                self.raising = True
+                return t[1][1], f"(← Py.unwrapAttr {mangle(v.id)})"
         if isinstance(v, ast.Subscript):
             e = self.ex(v)
             if isinstance(e.ty, tuple) and e.ty[0] == "Rec":
@@ -346,6 +384,9 @@ class Translator:
             e = self.ex(v)                                                 # a chain `a.b.c`: every link must be declared in the spec
             if isinstance(e.ty, tuple) and e.ty[0] == "Rec":
                 return e.ty[1], e.code
+            if is_opt(e.ty) and isinstance(e.ty[1], tuple) and e.ty[1][0] == "Rec":
+                self.raising = True                                        # `None.attr`: AttributeError
+                return e.ty[1][1], f"(← Py.unwrapAttr {e.code})"
         return None, None
 
     def ex_Dict(self, n):
@@ -403,8 +444,10 @@ class Translator:
             return E(f"(-{self.coerce(a, INT, n)})", INT)
         if isinstance(n.op, ast.Not):
             a = self.ex(n.operand)
+            if is_list(a.ty):
+                return E(f"({a.code}.isEmpty = true)", BOOL)               # `not xs`: a list is falsy exactly when it is empty
             if a.ty not in (BOOL, None):
-                raise Unsupported(n, "`not` on a non-boolean (truthiness is outside the subset)")
+                raise Unsupported(n, "`not` on a non-boolean (truthiness is outside the subset, except `not <list>`)")
             return E(f"(¬ {a.code})", BOOL)
         raise Unsupported(n, "unary operator outside the subset")
 
@@ -426,6 +469,11 @@ class Translator:
         op = type(n.op).__name__
         if a.ty is None or b.ty is None:
             return E("_", None)
+        if is_list(a.ty) and is_list(b.ty):
+            if op != "Add":
+                raise Unsupported(n, "only + on lists")
+            t = join(a.ty, b.ty, n)
+            return E(f"({self.coerce(a, t, n)} ++ {self.coerce(b, t, n)})", t, fresh=True)
         if strip_opt(a.ty) == BYTES or strip_opt(b.ty) == BYTES:
             if op != "Add":
                 raise Unsupported(n, "only + on byte sequences")
@@ -470,17 +518,28 @@ class Translator:
                 return E(f"({f} {self.coerce(a, opt(t), n)} {self.coerce(b, t, n)})", t)   # `x or d`: d when x is None or 0
             self.raising = saved
         saved = getattr(self, "raising", False)
-        parts = []
+        parts, later_raises = [], False
         for k, v in enumerate(n.values):
             self.raising = False
             e = self.ex(v)
             if e.ty not in (BOOL, None):
                 raise Unsupported(v, "and/or on a non-boolean operand (truthiness is outside the subset)")
             if k > 0 and self.raising:
-                raise Unsupported(v, "operand of and/or after the first one can raise: short-circuit evaluation would matter")
+                later_raises = True
             saved = saved or self.raising
             parts.append(e.code)
         self.raising = saved
+        if later_raises:
+            # short-circuit evaluation matters: `a and b` = `b if a else False`, `a or b` = `True if a else b`, the operands after the
+            # first one in `do` blocks of their own (their `(← …)` are only run when Python evaluates the operand)
+            code = parts[-1]
+            for a in reversed(parts[:-1]):
+                if isinstance(n.op, ast.And):
+                    code = f"(← (if {a} then (do pure (decide {code})) else pure false : Py.M Bool)) = true"
+                else:
+                    code = f"(← (if {a} then pure true else (do pure (decide {code})) : Py.M Bool)) = true"
+            self.raising = True
+            return E(f"({code})", BOOL)
         sym = " ∧ " if isinstance(n.op, ast.And) else " ∨ "
         return E("(" + sym.join(parts) + ")", BOOL)
 
@@ -495,6 +554,12 @@ class Translator:
             if a.ty is not None and not is_opt(a.ty):
                 return E("False" if op == "Is" else "True", BOOL)          # a value of a non-optional type is never None
             return E(f"({a.code} = none)" if op == "Is" else f"({a.code} ≠ none)", BOOL)
+        if op in ("In", "NotIn"):
+            ent = self._keyed(b, a, n)
+            if ent is None or "contains" not in ent:
+                raise Unsupported(n, "`in` on something the spec does not declare as a keyed record")
+            c = ent["contains"].format(self._key_code(a, ent, n), obj=b.code)
+            return E(c if op == "In" else f"(¬ {c})", BOOL)
         if a.ty is None or b.ty is None:
             return E("_", BOOL)
         sym = {"Eq": "=", "NotEq": "≠", "Lt": "<", "LtE": "≤", "Gt": ">", "GtE": "≥"}.get(op)
@@ -505,7 +570,18 @@ class Translator:
                 raise Unsupported(n, "comparison of a bool with a non-bool")
             t = join(a.ty, b.ty, n)                                        # None == 0 is simply False: compare at the joined type
             base = strip_opt(t)
-            if isinstance(base, tuple) and base[0] == "Rec":
+            if self.pure is not None and isinstance(base, tuple) and base[0] == "Rec" and base[1] in self.pure.eq:
+                # `==` of a record type for which the spec names Python's `__eq__` (e.g. numbers compare across int / float);
+                # `None == None` is True, a value never equals None (`Py.optEq`)
+                f = self.pure.eq[base[1]]
+                if not is_opt(t):
+                    c = f.format(a.code, b.code)
+                else:
+                    c = f"(Py.optEq (fun x y => {f.format('x', 'y')}) ({self.coerce(a, t, n)}) ({self.coerce(b, t, n)}))"
+                return E(c if op == "Eq" else f"(¬ {c})", BOOL)
+            if base == PYSTR:
+                pass                                                       # a Python `str` kept as a Lean `String`: equality by value
+            elif isinstance(base, tuple) and base[0] == "Rec":
                 if not (self.pure and base[1] in [v[0] for v in self.pure.enums.values()]):
                     raise Unsupported(n, f"== on {lean_ty(base)}: only enum members are compared (by identity); __eq__ of other records is outside the subset")
             elif base not in (NAT, INT, BOOL, BYTES, STR):
@@ -557,6 +633,23 @@ class Translator:
                     raise Unsupported(n, f"default of getattr is not `{default_src}`")
                 return E(tpl.format(obj), ty)
             raise Unsupported(n, "getattr outside the subset")
+        if isinstance(f, ast.Name) and f.id in ("isinstance", "issubclass") and len(n.args) == 2 and not n.keywords and self.pure is not None \
+                and not self._module_binds(f.id):
+            # isinstance(e, T) / issubclass(e, T) with T a builtin type name or a tuple of such names (a tuple = any of them): the spec
+            # names, per record type of `e` and builtin type, what the test means on its abstract values
+            table = self.pure.isinstance if f.id == "isinstance" else self.pure.issubclass
+            t = n.args[1]
+            names = [t] if isinstance(t, ast.Name) else list(t.elts) if isinstance(t, ast.Tuple) else []
+            if table and names and all(isinstance(x, ast.Name) and x.id in self.BUILTIN_TYPES and x.id not in self.vt
+                                       and not self._module_binds(x.id) for x in names):
+                a = self.ex(n.args[0])
+                if a.ty is None:
+                    return E("_", BOOL)
+                rec = a.ty[1] if isinstance(a.ty, tuple) and a.ty[0] == "Rec" else None
+                missing = [x.id for x in names if (rec, x.id) not in table]
+                if rec is None or missing:
+                    raise Unsupported(n, f"{f.id} of a {lean_ty(a.ty)} against {missing or [x.id for x in names]}: not declared in the spec")
+                return E("(" + " ∨ ".join(table[(rec, x.id)].format(a.code) for x in names) + ")", BOOL)
         if isinstance(f, ast.Name) and f.id == "cast" and len(n.args) == 2 and not n.keywords:
             # typing.cast(T, e) returns e unchanged at run time; the type T is not consulted (the translator infers its own)
             if not self._imported_from("typing", "cast"):
@@ -574,7 +667,10 @@ class Translator:
             # a function / method that is not translated: the spec names the hand-written Lean term that stands for it
             key, obj = None, ""
             if isinstance(f, ast.Name) and (None, f.id) in self.pure.calls:
-                if not self._imported_name(f.id) and not any(isinstance(d, ast.FunctionDef) and d.name == f.id for d in self.module.body):
+                if f.id in self.SPEC_BUILTINS:
+                    if self._module_binds(f.id):
+                        raise Unsupported(n, f"`{f.id}` is re-bound in this module (not the builtin)")
+                elif not self._imported_name(f.id) and not any(isinstance(d, ast.FunctionDef) and d.name == f.id for d in self.module.body):
                     raise Unsupported(n, f"`{f.id}` is neither imported nor defined at module level")
                 if f.id in self.vt:
                     raise Unsupported(n, f"`{f.id}` is also a local")
@@ -597,6 +693,10 @@ class Translator:
                 return E(tpl.format(*args, obj=obj), ret)
         raise Unsupported(n, "call outside the subset")
 
+    # builtins whose meaning on the abstract records of a `PureSpec` the spec has to name (`calls[(None, "isinstance")]`)
+    SPEC_BUILTINS = {"isinstance"}
+    BUILTIN_TYPES = {"int", "float", "str", "bytes", "bytearray", "bool", "dict", "list", "tuple"}
+
     def _imported_from(self, module, name):
         for st in self.module.body:
             if isinstance(st, ast.ImportFrom) and st.module == module and st.level == 0 \
@@ -613,6 +713,14 @@ class Translator:
         a = self.ex(n.value)
         if a.ty is None:
             return E("_", None)
+        if self.pure is not None and isinstance(a.ty, tuple) and a.ty[0] == "Rec" and not isinstance(n.slice, ast.Slice):
+            k = self.ex(n.slice)
+            ent = self._keyed(a, k, n)
+            if ent is not None and "getitem" in ent:
+                tpl, ty, raises = ent["getitem"]
+                if raises:
+                    self.raising = True
+                return E(tpl.format(self._key_code(k, ent, n), obj=a.code), ty)
         if is_dict(a.ty):
             if isinstance(n.slice, ast.Slice):
                 raise Unsupported(n, "slice of a dict")
@@ -627,6 +735,14 @@ class Translator:
                 raise Unsupported(n, "index of a str that is not provably non-negative")
             self.raising = True                                            # IndexError
             return E(f"(← Py.getItem {a.code} {i.code})", CHAR1)
+        if is_list(a.ty) and not isinstance(n.slice, ast.Slice):
+            i = self._num(self.ex(n.slice), n)
+            if i.ty is None:
+                return E("_", a.ty[1])
+            if i.ty != NAT:
+                raise Unsupported(n, "index of a list that is not provably non-negative")
+            self.raising = True                                            # IndexError
+            return E(f"(← Py.getItem {a.code} {i.code})", a.ty[1])
         if strip_opt(a.ty) != BYTES:
             raise Unsupported(n, "indexing of a non-byte-sequence")
         base = self.coerce(a, BYTES, n)
@@ -650,6 +766,25 @@ class Translator:
         if i.ty is None:
             return E("_", NAT)
         return E(f"(← Py.getItemZ {base} {i.code})", NAT)
+
+    def _keyed(self, obj: E, key: E, node):
+        """entry of the spec for `key in obj` / `obj[key]` on a record that stands for a Python dict: first the entry for this very
+        int literal (dicts with a distinguished key), else the entry for the key's type (NAT only: a provably non-negative int can
+        never be one of the distinguished negative keys)"""
+        if self.pure is None or not (isinstance(obj.ty, tuple) and obj.ty[0] == "Rec"):
+            return None
+        rec = obj.ty[1]
+        if key.lit is not None and (rec, key.lit) in self.pure.keyed:
+            return dict(self.pure.keyed[(rec, key.lit)], literal=True)
+        if key.ty == NAT and (rec, NAT) in self.pure.keyed:
+            lits = [k for (r, k) in self.pure.keyed if r == rec and isinstance(k, int)]
+            if any(k >= 0 for k in lits):
+                raise Unsupported(node, "a keyed record with a non-negative distinguished key and int keys")
+            return self.pure.keyed[(rec, NAT)]
+        return None
+
+    def _key_code(self, key: E, ent, node):
+        return "" if ent.get("literal") else key.code
 
     def _state_access(self, n):
         """`self._F[idx]` → python field name, else None"""
@@ -675,6 +810,8 @@ class Translator:
                         self._infer_assign(st.targets[0], st.value, st)
                     elif isinstance(st, ast.AnnAssign) and st.value is not None and isinstance(st.target, ast.Name):
                         self._infer_assign(st.target, st.value, st)        # the annotation is not consulted
+                    elif isinstance(st, ast.NamedExpr) and isinstance(st.target, ast.Name):
+                        self._infer_assign(st.target, st.value, st)
                     elif isinstance(st, ast.AugAssign) and isinstance(st.target, ast.Name):
                         v = ast.BinOp(left=ast.Name(id=st.target.id, ctx=ast.Load()), op=st.op, right=st.value)
                         ast.copy_location(v, st)
@@ -699,7 +836,7 @@ class Translator:
         for v, t in self.vt.items():
             if self.pure and v in self.pure.params:
                 continue
-            if t is None or (is_opt(t) and t[1] is None):
+            if t is None or (is_opt(t) and t[1] is None) or (is_list(t) and t[1] is None):
                 raise Unsupported(body[0], f"cannot infer a type for local `{v}`")
 
     def _bind(self, v, t, node):
@@ -767,9 +904,76 @@ class Translator:
             return self._callback(st, v, ind)
         if isinstance(v, ast.Call) and isinstance(v.func, ast.Name) and v.func.id == "odxraise":
             return self._odxraise(st, v, ind)
+        if isinstance(v, ast.Call) and isinstance(v.func, ast.Name) and v.func.id == "odxassert":
+            return self._odxassert(st, v, ind)
+        if isinstance(v, ast.Call) and isinstance(v.func, ast.Attribute) and isinstance(v.func.value, ast.Name) \
+                and v.func.value.id == "warnings" and v.func.attr == "warn":
+            return self._warn(st, v, ind)
         raise Unsupported(st, "expression statement outside the subset")
 
-    ODX_ERRORS = {"OdxError": "odxError", "EncodeError": "encodeError", "DecodeError": "decodeError"}
+    def _module_binds(self, name):
+        """is `name` bound at module level (import, def, class, assignment)? then it is not the builtin of that name"""
+        for st in self.module.body:
+            if isinstance(st, (ast.Import, ast.ImportFrom)) and any((a.asname or a.name.split(".")[0]) == name for a in st.names):
+                return True
+            if isinstance(st, (ast.FunctionDef, ast.ClassDef)) and st.name == name:
+                return True
+            if isinstance(st, (ast.Assign, ast.AnnAssign, ast.AugAssign)):
+                tgts = st.targets if isinstance(st, ast.Assign) else [st.target]
+                if any(isinstance(t, ast.Name) and t.id == name for tg in tgts for t in ast.walk(tg)):
+                    return True
+        return False
+
+    def _odxassert(self, st, call, ind):
+        """`odxassert(cond[, msg])` in STRICT MODE: `if not cond: raise OdxError(msg)` (exceptions.py); the condition is evaluated first"""
+        if not self._imported_name("odxassert"):
+            raise Unsupported(st, "`odxassert` is not imported in this module")
+        kw = {k.arg: k.value for k in call.keywords}
+        if not 1 <= len(call.args) <= 2 or set(kw) - {"message"} or (len(call.args) == 2 and kw):
+            raise Unsupported(st, "odxassert(condition[, message]) (an error_type is outside the subset)")
+        msg = call.args[1] if len(call.args) == 2 else kw.get("message")
+        if msg is not None and self._message(msg):
+            raise Unsupported(st, "message of odxassert evaluates a subscript (it is evaluated before the condition is tested)")
+        t = call.args[0]
+        if isinstance(t, ast.Call) and isinstance(t.func, ast.Name) and t.func.id == "isinstance" and len(t.args) == 2 \
+                and not (self.pure is not None and (None, "isinstance") in self.pure.calls):
+            # a typing assertion (like `assert isinstance(x, T)`): dropped and listed in the header — but its operand is evaluated
+            e = self.ex(t.args[0])
+            d = f"L{st.lineno}: {ast.unparse(st.value)}   (operand still evaluated)"
+            if d not in self.dropped:
+                self.dropped.append(d)
+            self.emit(ind, f"let _ := {e.code}   -- (dropped: a typing assertion; its operand is evaluated)", st)
+            return False
+        c = self.ex(t)
+        if c.ty not in (BOOL, None):
+            raise Unsupported(st, "odxassert on a non-boolean (truthiness is outside the subset)")
+        note = "`odxassert` is rendered for strict mode (exceptions.strict_mode = True): a false condition raises OdxError"
+        if note not in self.notes:
+            self.notes.append(note)
+        self.emit(ind, f"if ¬ {c.code} then throw Py.Err.odxError", st)
+        return False
+
+    def _warn(self, st, call, ind):
+        """`warnings.warn(msg, Category, stacklevel=k)`: no effect on the values computed (under the default warning filters a warning
+        is printed / recorded, not raised: an assumption listed in the header); the message has to be harmless to format"""
+        if not any(isinstance(s_, ast.Import) and any(a.name == "warnings" and a.asname is None for a in s_.names) for s_ in self.module.body):
+            raise Unsupported(st, "`warnings` is not the imported standard module")
+        kw = {k.arg: k.value for k in call.keywords}
+        if not 1 <= len(call.args) <= 2 or set(kw) - {"stacklevel", "category"} or None in kw:
+            raise Unsupported(st, "warnings.warn(message[, category][, stacklevel=…])")
+        if self._message(call.args[0]):
+            raise Unsupported(st, "message of a warning evaluates a subscript")
+        for extra in list(call.args[1:]) + [kw[k] for k in kw]:
+            if not isinstance(extra, (ast.Name, ast.Constant)):
+                raise Unsupported(st, "warnings.warn: category / stacklevel must be a name / constant")
+        note = "`warnings.warn(…)` is not rendered (assumption: warnings are not turned into exceptions by the warning filters)"
+        if note not in self.notes:
+            self.notes.append(note)
+        self.emit(ind, "pure ()   -- a warning: no effect on the result", st)
+        return False
+
+    ODX_ERRORS = {"OdxError": "odxError", "EncodeError": "encodeError", "DecodeError": "decodeError", "KeyError": "keyError"}
+    BUILTIN_ERRORS = {"KeyError"}                                          # not imported: must not be shadowed in the module
 
     def _odxraise(self, st, call, ind):
         """`odxraise(msg[, ErrorType])` in STRICT MODE (`exceptions.strict_mode = True`, the default and the mode the models follow):
@@ -783,34 +987,50 @@ class Translator:
             raise Unsupported(st, "odxraise(message, error_type)")
         msg = args[0] if args else kw.get("message")
         ety = args[1] if len(args) > 1 else kw.get("error_type")
-        if msg is not None:
-            self._message(msg)
+        pre = self._message(msg) if msg is not None else []
         kind = "OdxError"
         if ety is not None:
             if not (isinstance(ety, ast.Name) and ety.id in self.ODX_ERRORS):
                 raise Unsupported(st, "error type of odxraise outside the subset")
+            if ety.id in self.BUILTIN_ERRORS and self._module_binds(ety.id):
+                raise Unsupported(st, f"`{ety.id}` is re-bound in this module (not the builtin)")
             kind = ety.id
         note = "`odxraise` is rendered for strict mode (exceptions.strict_mode = True): it raises"
         if note not in self.notes:
             self.notes.append(note)
-        self.emit(ind, f"throw Py.Err.{self.ODX_ERRORS[kind]}", st)
+        for k, line in enumerate(pre):
+            self.emit(ind, line, st if k == 0 else None)
+        self.emit(ind, f"throw Py.Err.{self.ODX_ERRORS[kind]}", None if pre else st)
         return False
 
     def _message(self, m):
-        """a diagnostic text: a string literal, or an f-string over names / attribute chains (formatting those does not raise for the
-        dataclasses, enums, ints and strings of the subset); its content is not modelled"""
+        """a diagnostic text: a string literal, or an f-string over names / attribute chains / `type(e).__name__` (formatting those
+        does not raise for the dataclasses, enums, ints and strings of the subset); its content is not modelled. A subscript `xs[i]`
+        inside it IS evaluated (it can raise before the message is complete): returns the Lean statements that do so."""
+        pre = []
         if isinstance(m, ast.Constant) and isinstance(m.value, str):
-            return
+            return pre
         if isinstance(m, ast.JoinedStr):
             for part in m.values:
                 if isinstance(part, ast.Constant):
                     continue
+                if part.format_spec is not None:
+                    raise Unsupported(m, "format spec in a message")
                 v = part.value
-                while isinstance(v, ast.Attribute):
-                    v = v.value
-                if not isinstance(v, ast.Name) or part.format_spec is not None:
-                    raise Unsupported(m, "f-string over more than names / attributes")
-            return
+                while True:
+                    if isinstance(v, ast.Attribute):
+                        v = v.value
+                    elif isinstance(v, ast.Call) and isinstance(v.func, ast.Name) and v.func.id == "type" and len(v.args) == 1 \
+                            and not v.keywords and not self._module_binds("type"):
+                        v = v.args[0]
+                    else:
+                        break
+                if isinstance(v, ast.Subscript):
+                    e = self.ex(v)
+                    pre.append(f"let _ := {e.code}   -- evaluated for the message")
+                elif not isinstance(v, ast.Name):
+                    raise Unsupported(m, "f-string over more than names / attributes / type(…).__name__ / subscripts")
+            return pre
         raise Unsupported(m, "message is not a string literal")
 
     def _imported_name(self, name):
@@ -877,6 +1097,12 @@ class Translator:
         if not self.in_loop:
             raise Unsupported(st, "break outside a loop")
         self.emit(ind, "break", st)
+        return True
+
+    def st_Continue(self, st, ind):
+        if not self.in_loop:
+            raise Unsupported(st, "continue outside a loop")
+        self.emit(ind, "continue", st)
         return True
 
     def _assign_local(self, v, e: E, st, ind, value_node=None, comment=True):
@@ -969,6 +1195,16 @@ class Translator:
                     self.emit(ind, f"slot := {{ slot with {lf} := {self.coerce(E(mangle(tgt.id), t), ft, st)} }}"
                                    f"   -- `+=` extends the bytearray stored in self.{al} in place")
                 return
+            if is_list(t):
+                # `xs += ys` extends the list object IN PLACE; the same as re-binding `xs = xs + ys` only if no other name can
+                # refer to that object: `xs` must be a local that is only ever bound to fresh lists
+                if not isinstance(st.op, ast.Add):
+                    raise Unsupported(st, "augmented assignment on a list other than +=")
+                if self.pure is None or tgt.id in self.pure.params or not self._only_fresh_lists(tgt.id):
+                    raise Unsupported(st, f"`{tgt.id} += …` on a list that may be shared with another name (in-place extension)")
+                r = self.ex(st.value)
+                if r.ty is not None and not is_list(r.ty):
+                    raise Unsupported(st, "list += non-list")
             e = self.ex(v)
             if not self.declared(tgt.id):
                 raise Unsupported(st, f"local `{tgt.id}` is possibly unbound")
@@ -980,6 +1216,20 @@ class Translator:
                 raise Unsupported(st, "augmented assignment to a buffer field")
             return self._assign_field(fld, self.ex(v), st, ind, v)
         raise Unsupported(st, "augmented assignment target outside the subset")
+
+    def _only_fresh_lists(self, v):
+        """every binding of the local `v` in the function is a list display / comprehension / concatenation (a new object)"""
+        for st in ast.walk(ast.Module(body=self.fn_body, type_ignores=[])):
+            val = None
+            if isinstance(st, ast.Assign) and any(isinstance(t, ast.Name) and t.id == v for tg in st.targets for t in ast.walk(tg)):
+                val = st.value
+            elif isinstance(st, (ast.AnnAssign, ast.NamedExpr)) and isinstance(st.target, ast.Name) and st.target.id == v:
+                val = st.value
+            elif isinstance(st, ast.For) and any(isinstance(t, ast.Name) and t.id == v for t in ast.walk(st.target)):
+                return False
+            if val is not None and not isinstance(val, (ast.List, ast.ListComp, ast.BinOp)):
+                return False
+        return True
 
     def _typing_guard(self, st):
         """`if not isinstance(x, T): odxraise(…)` — a typing assertion written with odxraise: dropped like `assert isinstance`"""
@@ -997,7 +1247,8 @@ class Translator:
                 self.dropped.append(d)
             self.emit(ind, "-- (dropped: a typing assertion)", st)
             return False
-        c = self.ex(st.test)
+        test = self._lift_walrus(st, ind, kw)
+        c = self.ex(test)
         if c.ty != BOOL:
             raise Unsupported(st.test, "condition is not a boolean expression (truthiness is outside the subset)")
         self.emit(ind, f"{kw} {c.code} then", st)
@@ -1012,7 +1263,10 @@ class Translator:
                 # the whole `if … else if …` chain, so such a chain is rendered as a nested `else` block instead
                 em, self.emitting, self.raising = self.emitting, False, False
                 try:
-                    self.ex(st.orelse[0].test)
+                    if any(isinstance(x, ast.NamedExpr) for x in ast.walk(st.orelse[0].test)):
+                        self.raising = True                               # an assignment in the `elif` test: nested `else` block
+                    else:
+                        self.ex(st.orelse[0].test)
                 finally:
                     self.emitting = em
                 chain = not self.raising
@@ -1036,11 +1290,46 @@ class Translator:
         self.alias = merged
         return t1 and t2
 
+    def _walrus_of(self, test):
+        """the assignment expression of an `if` test, which must have the form `(x := e) <cmp> …`: the walrus is then the first thing
+        the test evaluates, so `x = e` followed by `if x <cmp> …` is the same program"""
+        walrus = [x for x in ast.walk(test) if isinstance(x, ast.NamedExpr)]
+        if not walrus:
+            return None
+        if len(walrus) > 1 or not (isinstance(test, ast.Compare) and test.left is walrus[0] and isinstance(walrus[0].target, ast.Name)):
+            raise Unsupported(test, "assignment expression other than `if (x := e) <cmp> …`")
+        return walrus[0]
+
+    def _lift_walrus(self, st, ind, kw):
+        w = self._walrus_of(st.test)
+        if w is None:
+            return st.test
+        if kw != "if":
+            raise Unsupported(st, "assignment expression in an `elif` test of a flat chain")
+        if self.pure is None:
+            raise Unsupported(st, "assignment expression in a slot method")
+        self.raising = False
+        self._assign_local(w.target.id, self.ex(w.value), st, ind, w.value)
+        self.raising = False
+        new = ast.Compare(left=ast.copy_location(ast.Name(id=w.target.id, ctx=ast.Load()), w), ops=st.test.ops, comparators=st.test.comparators)
+        return ast.copy_location(new, st.test)
+
     # ------------------------------------------------------------------------------------------------ loops (pure functions)
     def _iterable(self, it):
         if isinstance(it, (ast.GeneratorExp, ast.ListComp)):
             return self._comprehension(it)
+        if isinstance(it, ast.Call) and isinstance(it.func, ast.Name) and it.func.id == "reversed" and len(it.args) == 1 and not it.keywords:
+            # `reversed(xs)` of a list, consumed once by a loop / comprehension that does not mutate `xs` (the subset has no list
+            # mutation): the elements from the last to the first
+            if self._module_binds("reversed") or "reversed" in self.vt:
+                raise Unsupported(it, "`reversed` is re-bound (not the builtin)")
+            inner = self._iterable(it.args[0])
+            if inner.ty is None:
+                return E("_", None)
+            return E(f"({inner.code}).reverse", inner.ty)
         e = self.ex(it)
+        if e.ty == BYTES:
+            return E(e.code, ("List", NAT))                               # iterating `bytes` / `bytearray` yields ints 0 … 255
         if e.ty is not None and not is_list(e.ty):
             raise Unsupported(it, "iteration over a non-list")
         return e
@@ -1049,6 +1338,8 @@ class Translator:
         return self._comprehension(n)
 
     def ex_List(self, n):
+        if not n.elts:
+            return E("[]", ("List", None))                                 # a fresh empty list; its element type comes from the joins
         raise Unsupported(n, "list literal outside the subset")
 
     def _sorted(self, n):
@@ -1103,12 +1394,16 @@ class Translator:
         return E(f"(← Py.sortedByKeyM (fun {mangle(v)} => do pure {key.code}) {rev.code} {inner.code})", inner.ty)
 
     def _comprehension(self, n):
-        """`[f(x) for x in xs]` / `(f(x) for x in xs)` consumed once, in order → `xs.map fun x => f x`; `f(x)` must not raise"""
+        """`[f(x) for x in xs]` / `(f(x) for x in xs)` consumed once, in order → `xs.map fun x => f x`; `f(x)` must not raise.
+        `[x for x in xs if c(x)]` (the element is the loop variable itself, one condition) → `xs.filter fun x => c x`, or, when the
+        condition can raise, `(← Py.filterM (fun x => do pure (c x)) xs)`: conditions in list order, the first exception propagates"""
         if len(n.generators) != 1:
             raise Unsupported(n, "nested comprehension")
         g = n.generators[0]
-        if g.ifs or g.is_async or not isinstance(g.target, ast.Name):
-            raise Unsupported(n, "comprehension with a condition / a non-name target")
+        if g.is_async or not isinstance(g.target, ast.Name):
+            raise Unsupported(n, "comprehension with a non-name target")
+        if g.ifs and not (len(g.ifs) == 1 and isinstance(n.elt, ast.Name) and n.elt.id == g.target.id):
+            raise Unsupported(n, "comprehension with a condition whose element is not the loop variable itself / several conditions")
         v = g.target.id
         src = self._iterable(g.iter)
         el = src.ty[1] if src.ty else None
@@ -1118,15 +1413,27 @@ class Translator:
         self.vt[v] = el
         self.scopes.append({v})
         saved, self.raising = self.raising, False
+        cond_raises = False
         try:
-            body = self.ex(n.elt)
-            if self.raising:
-                raise Unsupported(n.elt, "element expression of a comprehension can raise")
+            if g.ifs:
+                body = self.ex(g.ifs[0])
+                cond_raises = self.raising
+                if body.ty not in (BOOL, None):
+                    raise Unsupported(g.ifs[0], "condition of a comprehension is not a boolean (truthiness is outside the subset)")
+            else:
+                body = self.ex(n.elt)
+                if self.raising:
+                    raise Unsupported(n.elt, "element expression of a comprehension can raise")
         finally:
             self.scopes.pop()
             self.raising = saved
         if body.ty is None or el is None:
             return E("_", None)
+        if g.ifs:
+            if cond_raises:
+                self.raising = True
+                return E(f"(← Py.filterM (fun {mangle(v)} => do pure {body.code}) {src.code})", src.ty)
+            return E(f"({src.code}.filter fun {mangle(v)} => {body.code})", src.ty)
         return E(f"({src.code}.map fun {mangle(v)} => {body.code})", ("List", body.ty))
 
     def _for_targets(self, st):
@@ -1175,9 +1482,11 @@ def _find_class(module, name):
 
 
 def _find_func(scope, name):
-    for n in scope.body:
-        if isinstance(n, ast.FunctionDef) and n.name == name:
-            return n
+    """the binding of `name` at the end of the class / module body: the LAST `def` (typing.overload stubs precede the implementation;
+    a last definition that is itself decorated is rejected by the decorator check of the caller)"""
+    found = [n for n in scope.body if isinstance(n, ast.FunctionDef) and n.name == name]
+    if found:
+        return found[-1]
     raise Unsupported(scope, f"function {name} not found")
 
 
@@ -1382,6 +1691,12 @@ class PureSpec:
     #                                                        [argument types], result type, can it raise?)
     calls: dict = field(default_factory=dict)
     getattr_defaults: dict = field(default_factory=dict)   # (record, attribute) -> (template, type, source text of the default)
+    # records that stand for a Python dict: (record, int literal | NAT) -> {"contains": template, "getitem": (template, type, raises?)};
+    # `{obj}` = the record, `{0}` = the key (typed entries only)
+    keyed: dict = field(default_factory=dict)
+    isinstance: dict = field(default_factory=dict)   # (record, builtin type name) -> template of `isinstance({0}, <type>)`
+    issubclass: dict = field(default_factory=dict)   # (record, builtin type name) -> template of `issubclass({0}, <type>)`
+    eq: dict = field(default_factory=dict)         # record -> template of Python's `==` on it (`{0}`, `{1}`: Bool-valued Lean term)
     enums: dict = field(default_factory=dict)      # plain `Enum` class -> (Lean inductive type, {member -> constructor}); ALL members
     open_ns: str = ""                              # further namespaces opened in the generated file
     prelude: list = field(default_factory=list)    # hand-written Lean lines emitted before the function (glue named by templates)
@@ -1409,8 +1724,12 @@ def translate_pure_function(src: str, func: str, spec: PureSpec, namespace: str,
     body = list(fn.body)
     while body and isinstance(body[0], ast.Expr) and isinstance(body[0].value, ast.Constant) and isinstance(body[0].value.value, str):
         body.pop(0)
+    tr.fn_body = body
     tr.infer(body, {k: v[0] for k, v in spec.params.items()})
     if tr.pure_ret is None:
+        for st in ast.walk(ast.Module(body=body, type_ignores=[])):       # surface the reason (inference swallows it before its last round)
+            if isinstance(st, ast.Return) and st.value is not None:
+                tr.ex(st.value)
         raise Unsupported(fn, "no return type inferred")
     tr.emitting = True
     tr.scopes = [{k for k, v in spec.params.items() if v[1] is not None}, set()]
@@ -1431,6 +1750,18 @@ def translate_pure_function(src: str, func: str, spec: PureSpec, namespace: str,
         o.append(f"      {rec}.{at} ↔ {tpl.format('·') or at} : {lean_ty(ty)}")
     for (rec, at), (tpl, ty, dflt) in spec.getattr_defaults.items():
         o.append(f"      getattr({rec}, {at!r}, {dflt}) ↔ {tpl.format('·')} : {lean_ty(ty)}   (the attribute, or {dflt} for objects without it)")
+    for fname, table in (("isinstance", spec.isinstance), ("issubclass", spec.issubclass)):
+        for (rec, ty), tpl in table.items():
+            o.append(f"      {fname}({rec}, {ty}) ↔ {tpl.format('·')} : Bool")
+    for rec, tpl in spec.eq.items():
+        o.append(f"      {rec} == {rec} ↔ {tpl.format('‹a›', '‹b›')} : Bool   (None == None, a value never equals None: Py.optEq)")
+    for (rec, k), ent in spec.keyed.items():
+        ks = str(k) if isinstance(k, int) else f"‹{lean_ty(k)}›"
+        kk = "" if isinstance(k, int) else "‹k›"
+        if "contains" in ent:
+            o.append(f"      {ks} in {rec} ↔ {ent['contains'].format(kk, obj='·')} : Bool")
+        if "getitem" in ent:
+            o.append(f"      {rec}[{ks}] ↔ {ent['getitem'][0].format(kk, obj='·')} : {lean_ty(ent['getitem'][1])}{' !' if ent['getitem'][2] else ''}")
     if spec.calls:
         o.append("    functions that are not translated (python call ↔ hand-written Lean term; `!` = can raise):")
         for (rec, fname), (tpl, arg_tys, ret, raises) in spec.calls.items():
@@ -1618,6 +1949,192 @@ def regenerate_limit(repo, verif):
     return _write(Path(verif) / "lean" / "OdxVerif" / "Gen" / "CompuLimit.lean", render_limit(Path(repo)))
 
 
+# ---- `DiagLayer._find_services_for_uds`: the prefix tree (`Dict[int, Union[List[DiagService], PrefixTree]]`, the services of a node
+# under the key -1) is the model's `Trie Service` (`Model/Dispatch.lean`): byte keys ↔ `Trie.find?`, key -1 ↔ `Trie.leaf` (`[]` = absent)
+_TRIE, _SVC = ("Rec", "Trie Service"), ("Rec", "Service")
+FINDSVC_SPEC = PureSpec(
+    params={"self": (("Rec", "DiagLayer"), None), "message": (BYTES, "message")},
+    binders="(tree : Trie Service) (message : Bytes)",
+    attrs={("DiagLayer", "_prefix_tree"): ("tree", _TRIE)},
+    keyed={("Trie Service", NAT): {"contains": "(({obj}).find? {0}).isSome", "getitem": ("(← Py.unwrapKey (({obj}).find? {0}))", _TRIE, True)},
+           ("Trie Service", -1): {"contains": "(¬ ({obj}).leaf.isEmpty){0}",
+                                   "getitem": ("(← Py.unwrapKey (if ({obj}).leaf.isEmpty then none else some ({obj}).leaf)){0}", ("List", _SVC), True)}},
+    open_ns="OdxVerif.Dispatch")
+
+
+def render_findsvc(repo: Path) -> str:
+    rel = "odxtools/diaglayers/diaglayer.py"
+    return translate_pure_function((Path(repo) / rel).read_text(), "_find_services_for_uds", FINDSVC_SPEC, "OdxVerif.Dispatch.Gen",
+                                   ["OdxVerif.Model.Dispatch", "OdxVerif.Model.PyRt"], rel, cls_name="DiagLayer",
+                                   lean_name="findServicesForUds")
+
+
+def regenerate_findsvc(repo, verif):
+    return _write(Path(verif) / "lean" / "OdxVerif" / "Gen" / "DispatchWalk.lean", render_findsvc(Path(repo)))
+
+
+# ---- `Parameter.is_required` of the parameter classes the codec model knows + `composite_codec_get_required_parameters`
+# (python file, class, constructor pattern of the model's `PKind`, binders, attrs): the dispatch `p.is_required` on the run-time class
+# of `p` is the hand-written table `isRequiredE` below (class ↔ constructor of `PKind`, the same reading as the model's encoder)
+_REQ_CLASSES = [
+    ("codedconstparameter", "CodedConstParameter", ".codedConst _ _", "", "", {}),
+    ("physicalconstantparameter", "PhysicalConstantParameter", ".physConst _ _", "", "", {}),
+    ("valueparameter", "ValueParameter", ".value _ dflt", "(dflt : Option PVal)", " dflt",
+     {("ValueParameter", "_physical_default_value"): ("dflt", opt(("Rec", "PVal")))}),
+    ("reservedparameter", "ReservedParameter", ".reserved _", "", "", {}),
+    ("matchingrequestparameter", "MatchingRequestParameter", ".matchingReq _ _", "", "", {}),
+    ("nrcconstparameter", "NrcConstParameter", ".nrcConst _ _", "", "", {}),
+    ("lengthkeyparameter", "LengthKeyParameter", ".lengthKey _", "", "", {}),
+]
+
+
+def render_required(repo: Path) -> str:
+    parts, table = [], []
+    for k, (mod, cls, pat, binders, args, attrs) in enumerate(_REQ_CLASSES):
+        rel = f"odxtools/parameters/{mod}.py"
+        name = cls[0].lower() + cls[1:] + "IsRequired"
+        spec = PureSpec(params={"self": (("Rec", cls), None)}, binders=binders, attrs=attrs)
+        parts.append(translate_pure_function((Path(repo) / rel).read_text(), "is_required", spec, "OdxVerif.Codec.Gen",
+                                             ["OdxVerif.Model.Codec", "OdxVerif.Model.PyRt"] if k == 0 else [], rel, cls_name=cls,
+                                             lean_name=name))
+        table.append(f"  | {pat} => {name}E{args}")
+    spec = PureSpec(
+        params={"codec": (("Rec", "CompositeCodec"), None)},
+        binders="(other : Py.M Bool) (parameters : List Param)",
+        attrs={("CompositeCodec", "parameters"): ("parameters", ("List", ("Rec", "Param"))),
+               ("Param", "is_required"): ("(← isRequiredE other {})", BOOL)},
+        prelude=["/-- `p.is_required`: Python dispatches on the class of `p`; the classes the model knows are the constructors of `PKind`.",
+                 "    `PKind.unsupported` stands for every other parameter class (SYSTEM, TABLE-KEY, TABLE-STRUCT, TABLE-ENTRY, DYNAMIC): what",
+                 "    their `is_required` does is the parameter `other` of the rendering. -/",
+                 "def isRequiredE (other : Py.M Bool) (p : Param) : Py.M Bool :=",
+                 "  match p.kind with"] + table + ["  | .unsupported => other"])
+    rel = "odxtools/codec.py"
+    parts.append(translate_pure_function((Path(repo) / rel).read_text(), "composite_codec_get_required_parameters", spec,
+                                         "OdxVerif.Codec.Gen", [], rel, lean_name="requiredParameters"))
+    return "\n".join(parts)
+
+
+def regenerate_required(repo, verif):
+    return _write(Path(verif) / "lean" / "OdxVerif" / "Gen" / "CodecRequired.lean", render_required(Path(repo)))
+
+
+_FRAG, _OBJ, _S, _DB, _FRAGDB = ("Rec", "Frag"), ("Rec", "Obj"), ("Rec", "String"), ("Rec", "Db"), ("Rec", "FragDb")
+
+# `OdxLinkDatabase.resolve` / `resolve_lenient`: `self._db` is the model's `Db` (an insertion-ordered association list for the dict of
+# dicts), `dict.get` the model's `dget` (keys: frozen dataclasses / str, compared by value), `isinstance(obj, T)` the model's
+# `Obj.isInst` (class names); `expected_type` is the class name or None. `ref.ref_id` is an opaque `String` (only handed to `get`).
+ODXLINK_SPEC = PureSpec(
+    params={"self": (("Rec", "OdxLinkDatabase"), None), "ref": (("Rec", "Ref"), None), "expected_type": (opt(_S), "expected_type")},
+    binders="(db : Db) (r : Ref) (expected_type : Option String)",
+    attrs={("OdxLinkDatabase", "_db"): ("db", _DB),
+           ("Ref", "ref_docs"): ("r.docs", ("List", _FRAG)),
+           ("Ref", "ref_id"): ("r.refId", _S)},
+    calls={("Db", "get"): ("(dget {obj} {0})", [_FRAG], opt(_FRAGDB), False),
+           ("FragDb", "get"): ("(dget {obj} {0})", [_S], opt(_OBJ), False),
+           (None, "isinstance"): ("(Obj.isInst {0} (some {1}))", [_OBJ, _S], BOOL, False)},
+    open_ns="OdxVerif.OdxLink")
+
+
+# `resolve_snref(target_short_name, items, expected_type)`: `items` a list of the model's `Obj`, `x.short_name` ↔ `Obj.name`
+SNREF_SPEC = PureSpec(
+    params={"target_short_name": (_S, "target_short_name"), "items": (("List", _OBJ), "items"), "expected_type": (opt(_S), "expected_type")},
+    binders="(target_short_name : String) (items : List Obj) (expected_type : Option String)",
+    attrs={("Obj", "short_name"): ("{}.name", _S)},
+    calls={(None, "isinstance"): ("(Obj.isInst {0} (some {1}))", [_OBJ, _S], BOOL, False)},
+    open_ns="OdxVerif.OdxLink")
+
+
+def render_odxlink_resolve(repo: Path) -> str:
+    rel = "odxtools/odxlink.py"
+    src = (Path(repo) / rel).read_text()
+    a = translate_pure_function(src, "resolve", ODXLINK_SPEC, "OdxVerif.OdxLink.Gen", ["OdxVerif.Model.OdxLink", "OdxVerif.Model.PyRt"],
+                                rel, cls_name="OdxLinkDatabase")
+    b = translate_pure_function(src, "resolve_lenient", ODXLINK_SPEC, "OdxVerif.OdxLink.Gen", [], rel, cls_name="OdxLinkDatabase")
+    c = translate_pure_function(src, "resolve_snref", SNREF_SPEC, "OdxVerif.OdxLink.Gen", [], rel)
+    return a + "\n" + b + "\n" + c
+
+
+def regenerate_odxlink_resolve(repo, verif):
+    return _write(Path(verif) / "lean" / "OdxVerif" / "Gen" / "OdxLinkResolve.lean", render_odxlink_resolve(Path(repo)))
+
+
+# ---- `CompuScale.applies` (compuscale.py): the limits' `complies_to_lower/upper` are the functions translated above
+# (`Gen/CompuLimit.lean`), `Limit.value` is translated too; `==` on AtomicOdxType values is the model's `Val.pyEq`
+_VAL, _LIMIT = ("Rec", "Val"), ("Rec", "Limit")
+
+
+def render_scale_applies(repo: Path) -> str:
+    rel1, rel2 = "odxtools/compumethods/limit.py", "odxtools/compumethods/compuscale.py"
+    vspec = PureSpec(params={"self": (_LIMIT, None)}, binders="(l : Limit)", attrs={("Limit", "_value"): ("l.value", opt(_VAL))})
+    a = translate_pure_function((Path(repo) / rel1).read_text(), "value", vspec, "OdxVerif.Compu.Gen",
+                                ["OdxVerif.Gen.CompuLimit"], rel1, cls_name="Limit", lean_name="limitValue")
+    spec = PureSpec(
+        params={"self": (("Rec", "CompuScale"), None), "internal_value": (_VAL, "internal_value")},
+        binders="(s : Scale) (internal_value : Val)",
+        attrs={("CompuScale", "lower_limit"): ("s.lo", opt(_LIMIT)), ("CompuScale", "upper_limit"): ("s.hi", opt(_LIMIT)),
+               ("Limit", "value"): ("(← limitValueE {})", opt(_VAL))},
+        calls={("Limit", "complies_to_lower"): ("(← compliesToLowerE {obj} {0})", [_VAL], BOOL, True),
+               ("Limit", "complies_to_upper"): ("(← compliesToUpperE {obj} {0})", [_VAL], BOOL, True)},
+        eq={"Val": "(Val.pyEq {0} {1})"})
+    b = translate_pure_function((Path(repo) / rel2).read_text(), "applies", spec, "OdxVerif.Compu.Gen", [], rel2, cls_name="CompuScale",
+                                lean_name="scaleApplies")
+    return a + "\n" + b
+
+
+# ---- `RatFuncSegment.applies`, `LinearSegment.physical_applies` / `internal_applies`: the type test against
+# `<type>.python_type` and the two optional limits
+_DTYPE = ("Rec", "DType")
+_SEG_PRELUDE = [
+    "/-- `isinstance(v, int)` / `isinstance(v, float)` / `isinstance(v, t.python_type)` on the model's values; `DataType.python_type` is `int`",
+    "    for the integer types, `float` for the float types, `str` for the string types (a Python `bool` is not a value of the model) -/",
+    "def valIsInt : Val → Bool | .int _ => true | _ => false",
+    "def valIsFloat : Val → Bool | .flt _ => true | _ => false",
+    "def valIsInst (v : Val) (t : DType) : Bool :=",
+    "  match v with",
+    "  | .int _ => t.isInt",
+    "  | .flt _ => t.isFloat",
+    "  | .str _ => t = .str"]
+
+
+def _segment_spec(cls, param, binders, ty_attr, ty_term, lo_attr, lo_term, hi_attr, hi_term, prelude):
+    return PureSpec(
+        params={"self": (("Rec", cls), None), param: (_VAL, param)},
+        binders=binders,
+        attrs={(cls, ty_attr): (ty_term, _DTYPE), ("DType", "python_type"): ("{}", _DTYPE),
+               (cls, lo_attr): (lo_term, opt(_LIMIT)), (cls, hi_attr): (hi_term, opt(_LIMIT))},
+        calls={("Limit", "complies_to_lower"): ("(← compliesToLowerE {obj} {0})", [_VAL], BOOL, True),
+               ("Limit", "complies_to_upper"): ("(← compliesToUpperE {obj} {0})", [_VAL], BOOL, True),
+               (None, "isinstance"): ("(valIsInst {0} {1})", [_VAL, _DTYPE], BOOL, False)},
+        isinstance={("Val", "int"): "(valIsInt {0})", ("Val", "float"): "(valIsFloat {0})"},
+        issubclass={("DType", "float"): "({0}.isFloat)"},
+        prelude=prelude)
+
+
+def render_segment_applies(repo: Path) -> str:
+    rel1, rel2 = "odxtools/compumethods/ratfuncsegment.py", "odxtools/compumethods/linearsegment.py"
+    a = translate_pure_function((Path(repo) / rel1).read_text(), "applies",
+                                _segment_spec("RatFuncSegment", "value", "(s : RatSeg) (value : Val)", "domain_type", "s.domTy",
+                                              "lower_limit", "s.lo", "upper_limit", "s.hi", _SEG_PRELUDE),
+                                "OdxVerif.Compu.Gen", ["OdxVerif.Gen.CompuLimit"], rel1, cls_name="RatFuncSegment", lean_name="ratSegApplies")
+    b = translate_pure_function((Path(repo) / rel2).read_text(), "physical_applies",
+                                _segment_spec("LinearSegment", "physical_value", "(s : LinSeg) (physical_value : Val)", "physical_type", "s.pty",
+                                              "_physical_lower_limit", "s.plo", "_physical_upper_limit", "s.phi", []),
+                                "OdxVerif.Compu.Gen", [], rel2, cls_name="LinearSegment", lean_name="linSegPhysApplies")
+    c = translate_pure_function((Path(repo) / rel2).read_text(), "internal_applies",
+                                _segment_spec("LinearSegment", "internal_value", "(s : LinSeg) (internal_value : Val)", "internal_type", "s.ity",
+                                              "internal_lower_limit", "s.ilo", "internal_upper_limit", "s.ihi", []),
+                                "OdxVerif.Compu.Gen", [], rel2, cls_name="LinearSegment", lean_name="linSegIntApplies")
+    return a + "\n" + b + "\n" + c
+
+
+def regenerate_segment_applies(repo, verif):
+    return _write(Path(verif) / "lean" / "OdxVerif" / "Gen" / "CompuSegmentApplies.lean", render_segment_applies(Path(repo)))
+
+
+def regenerate_scale_applies(repo, verif):
+    return _write(Path(verif) / "lean" / "OdxVerif" / "Gen" / "CompuScaleApplies.lean", render_scale_applies(Path(repo)))
+
+
 def _write(out: Path, new: str):
     if not out.exists() or out.read_text() != new:
         out.write_text(new)
@@ -1641,8 +2158,10 @@ if __name__ == "__main__":
     repo = Path(sys.argv[1]) if len(sys.argv) > 1 else Path("/repo")
     if len(sys.argv) > 2:
         for regen in (regenerate_isotp, regenerate_staticlen, regenerate_muxkey, regenerate_limit, regenerate_inherit_prio,
-                      regenerate_itemkey):
+                      regenerate_itemkey, regenerate_odxlink_resolve, regenerate_required,
+                      regenerate_findsvc, regenerate_scale_applies, regenerate_segment_applies):
             print(regen(repo, Path(sys.argv[2])))
     else:
-        for render in (render_isotp, render_staticlen, render_muxkey, render_limit, render_inherit_prio, render_itemkey):
+        for render in (render_isotp, render_staticlen, render_muxkey, render_limit, render_inherit_prio, render_itemkey, render_odxlink_resolve, render_required,
+                       render_findsvc, render_scale_applies, render_segment_applies):
             sys.stdout.write(render(repo))
